@@ -28,9 +28,10 @@ from .. import core, runner
 
 THEOREMS = ["ZI.Own.check_sound", "ZI.Own.safe_op", "ZI.Own.inv_step", "ZI.Own.checkL_imp_check", "ZI.Own.lstep_count", "ZI.Own.checkL_balanced", "ZI.Own.C11_balanced",
             "ZI.Own.leak_rejected", "ZI.Own.balanced_accepted", "ZI.Detach.check_sound", "ZI.Detach.safe_store", "ZI.Detach.rel_step",
-            "ZI.Mutator.wipes_sound", "ZI.Mutator.post_sound", "ZI.Mutator.step_sound"]
+            "ZI.Mutator.wipes_sound", "ZI.Mutator.post_sound", "ZI.Mutator.step_sound",
+            "ZI.Resub.check_sound", "ZI.Resub.cached_is_subscribed", "ZI.Resub.old_order_rejected", "ZI.Resub.new_order_accepted", "ZI.Resub.old_order_witness"]
 GEN_THEOREMS = ["own_subcache", "own_getcache", "own_lookup", "own_lookup1", "own_lookupAll", "own_subscriptions", "own_verify", "detach_lookup", "detach_lookupAll", "detach_subscriptions", "loops_snapshot",
-                "mutators_wipe"]
+                "mutators_wipe", "changed_resubscribes"]
 EPS = ["lookup", "lookup1", "lookupAll", "subscriptions", "queryAdapter", "adapter_hook", "queryMultiAdapter"]
 
 
